@@ -92,7 +92,10 @@ impl Ctx {
             Ok(v) => Ok(v),
             Err(msg) => Err(Fail {
                 check: name,
-                details: format!("{}\nreal code: PANICKED: {}\noracle: this operation never panics", input(), msg),
+                details: format!(
+                    "{}\nreal code: PANICKED: {} (replay is built in release mode with overflow checks on, debug assertions off)\noracle: this operation never panics",
+                    input(), msg
+                ),
             }),
         }
     }
@@ -116,24 +119,38 @@ pub fn guard<T>(f: impl FnOnce() -> T) -> Result<T, String> {
     }
 }
 
+/// Hex; a run of 12 or more equal bytes is written `(xx*count)`.
 pub fn hex(b: &[u8]) -> String {
     let mut s = String::with_capacity(b.len() * 2);
-    for x in b {
-        s.push_str(&format!("{:02x}", x));
+    let mut i = 0;
+    while i < b.len() {
+        let mut j = i;
+        while j < b.len() && b[j] == b[i] {
+            j += 1;
+        }
+        if j - i >= 12 {
+            s.push_str(&format!("({:02x}*{})", b[i], j - i));
+        } else {
+            for x in &b[i..j] {
+                s.push_str(&format!("{:02x}", x));
+            }
+        }
+        i = j;
     }
     s
 }
 
-/// Bytes for a report: hex, abbreviated in the middle when long (full length always stated).
+/// Bytes for a report: hex, abbreviated in the middle when very long (length always stated).
 pub fn show_bytes(b: &[u8]) -> String {
-    if b.len() <= 2048 {
-        format!("len={} hex={}", b.len(), hex(b))
+    let h = hex(b);
+    if h.len() <= 4600 {
+        format!("len={} hex={}", b.len(), h)
     } else {
         format!(
-            "len={} hex(first 1024)={} ... hex(last 256)={} fnv64={:016x}",
+            "len={} hex(first 1500 bytes)={} ... hex(last 300 bytes)={} [whole input: fnv1a64={:016x}]",
             b.len(),
-            hex(&b[..1024]),
-            hex(&b[b.len() - 256..]),
+            hex(&b[..1500.min(b.len())]),
+            hex(&b[b.len().saturating_sub(300)..]),
             b.iter().fold(0xcbf29ce484222325u64, |h, &x| (h ^ x as u64).wrapping_mul(0x100000001b3))
         )
     }
